@@ -187,6 +187,8 @@ class MapperValued:
         mapping_matrix = self.mapper.mapping_matrix
 
         if self.mesh_pixel_mask is not None:
+            # Copy so the mapping matrix cached by the mapper (and used by its inversions) is not overwritten.
+            mapping_matrix = mapping_matrix.copy()
             mapping_matrix[:, self.mesh_pixel_mask] = 0.0
 
         return Array2D(
